@@ -72,13 +72,17 @@ static void c18_pr_indep(const c18_Indep&, Sink& s) {
         RecInt::ruint<7> x(123456789u), y(987654321u), z; x *= y; x += (RecInt::ruint<7>)i; z = x * x; z -= y; z /= (RecInt::ruint<7>)(i + 3); o << z << " ";
     }
 }
-template <class D, void (*PROBE)(const D&, Sink&)> struct c18_BoxNA : Any {      // copy-constructible, not assignable
-    D d;
-    c18_BoxNA(const D& x) : d(x) {}
-    Any* copy() const { return new c18_BoxNA(d); }
-    void assign(const Any&) {}
-    void probe(Sink& s) { PROBE(d, s); }
+// copy-constructible but not assignable classes (QField<Rational> has const members): held through a regular wrapper whose assignment is
+// destroy + copy-construct, so that C16's Box<> can be used as it is (no subclass of Any here: that interface keeps growing)
+template <class D> struct c18_Holder {
+    D* p;
+    c18_Holder(const D& x) : p(new D(x)) {}
+    c18_Holder(const c18_Holder& o) : p(new D(*o.p)) {}                       // D's copy constructor
+    c18_Holder& operator=(const c18_Holder& o) { if (this != &o) { D* q = new D(*o.p); delete p; p = q; } return *this; }
+    ~c18_Holder() { delete p; }
 };
+static void c18_pr_qfield_h(const c18_Holder<QField<Rational> >& h, Sink& s) { c18_pr_qfield(*h.p, s); }
+static void c18_pr_indep_h(const c18_Holder<c18_Indep>& h, Sink& s) { c18_pr_indep(*h.p, s); }
 
 // ---- sharer counts (protected member numRefs of Modular<Log16>: read through a derived class without data members)
 struct c18_PeekLog16 : Modular<Log16> { long refs() const { return numRefs ? (long)(int)(*numRefs) : -1; } };
@@ -96,8 +100,8 @@ static long c18_sharers(const std::string& cls, Any* a) {
 
 static Any* make18(const std::string& cls, int P) {
     P &= 3;
-    if (cls == "QField<Rational>") return new c18_BoxNA<QField<Rational>, c18_pr_qfield>(QField<Rational>());
-    if (cls == "Independent<Integer,Rational,ruint>") return new c18_BoxNA<c18_Indep, c18_pr_indep>(c18_Indep());
+    if (cls == "QField<Rational>") return new Box<c18_Holder<QField<Rational> >, c18_pr_qfield_h>(c18_Holder<QField<Rational> >(QField<Rational>()));
+    if (cls == "Independent<Integer,Rational,ruint>") return new Box<c18_Holder<c18_Indep>, c18_pr_indep_h>(c18_Holder<c18_Indep>(c18_Indep()));
     if (cls == "IntRNSsystem<vector>") {
         typedef IntRNSsystem<std::vector, std::allocator> R; std::vector<Integer> pr;
         static const long PS[4][5] = {{3, 5, 7, 0, 0}, {11, 13, 17, 19, 0}, {1000003, 1000033, 999983, 65521, 2}, {2, 3, 0, 0, 0}};
